@@ -37,10 +37,18 @@ def cases(tier):
         # while the root config says the opposite (limit <-> no limit)
         if okkind == "fixable" and (bl or cl):
             out.append({"unit": unit, "delta": delta, "bl": bl, "cl": cl, "sf": sf, "cmd": cmd, "ok": okkind, "procs": procs, "where": "nested"})
+        # the same sizes for a file with CRLF line endings (3 lines): its size ON DISK counts both bytes of each line end
+        if okkind == "fixable" and procs == 1 and bl and not cl and unit == "bytes":
+            out.append({"unit": unit, "delta": delta, "bl": bl, "cl": cl, "sf": sf, "cmd": cmd, "ok": okkind, "procs": procs, "eol": "crlf"})
     return out
 
 
-def big_text(unit, n):
+def big_text(unit, n, eol="lf"):
+    if eol == "crlf":
+        # three CRLF-terminated lines; n counts every byte / character of the file as stored
+        head = "SELECT a  ,b\r\nFROM t\r\n-- " + ("é" if unit == "bytes" else "中")
+        used = len(head.encode("utf-8")) if unit == "bytes" else len(head)
+        return head + "x" * (n - used - 2) + "\r\n"
     head = "SELECT a  FROM t -- "
     if unit == "bytes":
         # ascii + one 2-byte char: bytes = chars + 1
@@ -55,7 +63,7 @@ def big_text(unit, n):
 def run_case(case):
     res = {"n": 1, "fails": [], "cls": set(), "stats": {}, "nontrivial": 0}
     n = L + case["delta"]
-    text = big_text(case["unit"], n)
+    text = big_text(case["unit"], n, case.get("eol", "lf"))
     nbytes, nchars = len(text.encode("utf-8")), len(text)
     assert (nbytes if case["unit"] == "bytes" else nchars) == n, (nbytes, nchars, n)
     skip = (case["bl"] > 0 and nbytes > case["bl"]) or (case["cl"] > 0 and nchars > case["cl"])
@@ -82,7 +90,7 @@ def run_case(case):
         with open(os.path.join(d, "ok.sql"), "w", encoding="utf-8") as f:
             f.write(oktext)
         if variant == "with":
-            with open(os.path.join(d, bigrel), "w", encoding="utf-8") as f:
+            with open(os.path.join(d, bigrel), "w", encoding="utf-8", newline="") as f:
                 f.write(text)
         args = [case["cmd"], ".", "--processes", str(case["procs"])]
         if case["cmd"] == "lint":
@@ -111,7 +119,7 @@ def run_case(case):
         finally:
             Linter._parse_tokens = staticmethod(orig)
             Linter.lint_paths = orig_lp
-        after = open(os.path.join(d, bigrel), encoding="utf-8").read() if variant == "with" else None
+        after = open(os.path.join(d, bigrel), encoding="utf-8", newline="").read() if variant == "with" else None
         recs = None
         if case["cmd"] == "lint":
             try:
